@@ -223,4 +223,18 @@ var props = map[string]*Prop{
 			{Name: "audit-exit-status", Pkg: "internal/llm", Test: "TestVerifC13CLI", Shards: sh(8, 8), Builds: []Build{{Pkg: "cmd/sfw", Out: "sfw"}}},
 		},
 	},
+	"C01": {
+		Level: "model_checking",
+		Rule: "stateless exploration of the real fingerprinter with every source of run-dependence owned by the explorer: (1) every range over a map in pkg/analysis/ir, pkg/analysis/loop and pkg/diff is rewritten (overlay, from the working tree) into a choice point whose keys are ordered canonically and then permuted (all n! orders up to 4 keys, otherwise identity/reversal/adjacent transpositions/rotations); every function of a 60-function corpus (program family + functions with several induction variables, swapped branches, select and type-switch multiway blocks) is fingerprinted under both policies for every execution with <=1 (quick) / <=2 (thorough) deviating sites, plus the whole-file FingerprintPackages path; (2) canonicalizerPool becomes a modelled pool whose Get may return ANY pooled object or a new one: every history of <=2 prior uses (other functions, the same function, the other policy, a zipper run) x every pool choice; (3) 2-3 concurrent callers, all interleavings of the pool operations; (4) the built sfw check binary as fresh processes for GOMAXPROCS {1,2,16} x two directory depths x repeated runs. Oracle: (name, fingerprint, canonical IR) byte-equal to the default execution. states = distinct results per function (must be 1), transitions = decisions, traces = executions. A free-running -race pass of concurrent fingerprinting complements (data races are invisible to a cooperative scheduler).",
+		Assumptions: []string{"for maps with more than four keys only the permutation menu is explored", "programs outside the corpus are not covered"},
+		Bounds:      map[string]string{"quick": "<=1 deviating map-range site per fingerprint; pool histories <=2 (reduced second-use alphabet)", "thorough": "<=2 deviating sites; full second-use alphabet"},
+		Units: []Unit{
+			{Name: "map-iteration-orders", Pkg: "pkg/diff", Test: "TestVerifC01MapOrders", Tags: []string{"verif_sched"}, Shards: sh(16, 16), GoMaxProcs: 2, TimeoutS: sh(1800, 3600), DeadlineS: sh(600, 2400),
+				Profile: ovgen.Profile{MapRanges: []string{"pkg/analysis/ir", "pkg/analysis/loop", "pkg/diff"}}},
+			{Name: "pool-histories-and-callers", Pkg: "pkg/diff", Test: "TestVerifC01Pool", Tags: []string{"verif_pool"}, Shards: sh(16, 16), GoMaxProcs: 2, TimeoutS: sh(1800, 3600), DeadlineS: sh(600, 2400),
+				Profile: ovgen.Profile{Imports: []ovgen.ImportRewrite{{File: "pkg/analysis/ir/canonicalizer.go", Map: map[string]string{"sync": ovgen.ShimBase + "vsync"}}}}},
+			{Name: "concurrent-fingerprinting-race", Pkg: "pkg/diff", Test: "TestVerifC01Race", Shards: sh(2, 4), Race: true, TimeoutS: sh(1800, 3600)},
+			{Name: "process-configurations", Pkg: "internal/cli", Test: "TestVerifC01Configs", Shards: sh(3, 3), Builds: []Build{{Pkg: "cmd/sfw", Out: "sfw"}}},
+		},
+	},
 }
